@@ -485,6 +485,8 @@ def with_layout(x, layout):
         return np.asfortranarray(x)
     if layout == "int":
         return x.astype(int)
+    if layout == "int32":
+        return x.astype(np.int32)
     if layout in ("up", "down"):              # the same data 2^24 times larger / smaller (exact in binary64)
         return x * (2.0 ** 24 if layout == "up" else 2.0 ** -24)
     if layout == "view":                      # a non-contiguous view of a larger buffer
@@ -965,7 +967,9 @@ def linspace_case(a, b, num):
 SOPS = {"funvals": "Sfunvals", "vector": "Svector", "parameters": "Sparameters"}
 
 
-def samples_case(d, arr, is_par, is_vec, ops):
+def samples_case(d, arr, is_par, is_vec, ops, layout=None):
+    """layout: dtype / memory layout in which the sample array is STORED in the Samples object (integer chains, Fortran order,
+    non-contiguous views): conversions must give the same values whatever the storage of the input"""
     from cuqi.samples import Samples
     g = build_geom(d)
     arr = np.array(arr, dtype=float)
@@ -973,7 +977,7 @@ def samples_case(d, arr, is_par, is_vec, ops):
     with warnings.catch_warnings():
         warnings.simplefilter("ignore")
         try:
-            S = Samples(arr.copy(), geometry=(None if d.get("implicit") else g), is_par=is_par, is_vec=is_vec)    # implicit: the default geometry
+            S = Samples(with_layout(arr, layout), geometry=(None if d.get("implicit") else g), is_par=is_par, is_vec=is_vec)    # implicit: the default geometry
             R = S
             for op in ops:
                 R = getattr(R, op)
@@ -1028,19 +1032,19 @@ def samples_case(d, arr, is_par, is_vec, ops):
         sig = "%s.par2fun|%s" % (CLASSNAME[innermost(d)["kind"]], SQ)       # root cause: squeeze() in the geometry map
     if fail and innermost(d)["kind"] == "step" and step_defect(innermost(d)):
         sig = step_defect(innermost(d))[0]
-    return Case(expr=expr, meta={"op": "samples", "geom": d, "array": arr.tolist(), "is_par": is_par, "is_vec": is_vec, "ops": ops},
-                cell="samples/%s/%s%s" % (gcell(d), "-".join(ops), "" if is_par else ("/fromvec" if is_vec else "/fromfun")),
+    return Case(expr=expr, meta={"op": "samples", "geom": d, "array": arr.tolist(), "is_par": is_par, "is_vec": is_vec, "ops": ops, "layout": layout},
+                cell="samples/%s/%s%s%s" % (gcell(d), "-".join(ops), "" if is_par else ("/fromvec" if is_vec else "/fromfun"), ("@" + layout) if layout else ""),
                 kind="EXACT" if exact else "DECISION", impl_fail=fail, signature=sig)
 
 
-def cuqiarray_case(d, x, is_par, to_par):
+def cuqiarray_case(d, x, is_par, to_par, layout=None):
     from cuqi.array import CUQIarray
     g = build_geom(d)
     x = np.array(x, dtype=float)
     with warnings.catch_warnings():
         warnings.simplefilter("ignore")
         try:
-            a = CUQIarray(x.copy(), is_par=is_par, geometry=(None if d.get("implicit") else g))
+            a = CUQIarray(with_layout(x, layout), is_par=is_par, geometry=(None if d.get("implicit") else g))
             r = a.parameters if to_par else a.funvals
             obs = (np.asarray(r.to_numpy(), dtype=float), bool(r.is_par))
             same_geom = (r.geometry is g) if not d.get("implicit") else (r.geometry is a.geometry)
@@ -1073,8 +1077,8 @@ def cuqiarray_case(d, x, is_par, to_par):
         sig = sig_for(d, "fun2par" if "funvals.parameters" in fail else "par2fun", None)
         if "|" not in sig:
             sig = "CUQIarray.%s|%s" % ("parameters" if to_par else "funvals", CLASSNAME[innermost(d)["kind"]])
-    return Case(expr=expr, meta={"op": "cuqiarray", "geom": d, "x": x.tolist(), "is_par": is_par, "to_par": to_par},
-                cell="cuqiarray/%s/%s" % (gcell(d), ("parameters" if to_par else "funvals") + ("" if is_par else "/fromfun")),
+    return Case(expr=expr, meta={"op": "cuqiarray", "geom": d, "x": x.tolist(), "is_par": is_par, "to_par": to_par, "layout": layout},
+                cell="cuqiarray/%s/%s%s" % (gcell(d), ("parameters" if to_par else "funvals") + ("" if is_par else "/fromfun"), ("@" + layout) if layout else ""),
                 kind="EXACT" if exact else "DECISION", impl_fail=fail, signature=sig)
 
 
@@ -1518,6 +1522,17 @@ def run(ctx):
                 arrv = rand_arr(rng, (int(np.prod(fs)), 2))
                 for ops in (["funvals"], ["parameters"], ["funvals", "vector"]):
                     cases.append(samples_case(d, arrv, False, True, ops))
+        # dtype and memory layout of the STORED arrays (lesson 5, for the conversion loops as well as for the maps): an integer chain
+        # through a geometry with non-integer function values must not be truncated, Fortran-ordered and strided storage must not matter
+        arrL = rand_arr(rng, (pd, 3))
+        for layout_, ops in (("int", ["funvals"]), ("int", ["funvals", "parameters"]), ("int32", ["funvals", "vector", "parameters"]),
+                             ("F", ["funvals", "parameters"]), ("view", ["funvals", "vector", "funvals"])):
+            cases.append(samples_case(d, arrL, True, True, ops, layout_))
+        arrfL = rand_arr(rng, tuple(fs) + (2,))
+        for layout_, ops in (("int", ["parameters"]), ("int", ["vector", "parameters"]), ("F", ["parameters"]), ("view", ["vector"])):
+            cases.append(samples_case(d, arrfL, False, len(fs) == 1, ops, layout_))
+        cases.append(cuqiarray_case(d, rand_arr(rng, (pd,)), True, False, "int"))
+        cases.append(cuqiarray_case(d, rand_arr(rng, tuple(fs)), False, True, "int"))
         cases.append(cuqiarray_case(d, rand_arr(rng, (pd,)), True, False))
         cases.append(cuqiarray_case(d, rand_arr(rng, (pd,)), True, True))
         cases.append(cuqiarray_case(d, rand_arr(rng, tuple(fs)), False, True))
@@ -1558,9 +1573,9 @@ def _recase(meta):
     if op == "linspace":
         return linspace_case(float.fromhex(meta["a"]), float.fromhex(meta["b"]), meta["num"])
     if op == "samples":
-        return samples_case(meta["geom"], np.array(meta["array"], dtype=float), meta["is_par"], meta["is_vec"], meta["ops"])
+        return samples_case(meta["geom"], np.array(meta["array"], dtype=float), meta["is_par"], meta["is_vec"], meta["ops"], meta.get("layout"))
     if op == "cuqiarray":
-        return cuqiarray_case(meta["geom"], np.array(meta["x"], dtype=float), meta["is_par"], meta["to_par"])
+        return cuqiarray_case(meta["geom"], np.array(meta["x"], dtype=float), meta["is_par"], meta["to_par"], meta.get("layout"))
     if op == "kl_cert":
         return kl_cert_case(meta["geom"])
     if op == "step_regrid":
